@@ -143,6 +143,7 @@ def run(ctx):
     fragments(ctx)
     after_rejection(ctx)
     downgraded_context(ctx)
+    any_port(ctx)
 
 
 def pick(alts, k):
@@ -365,6 +366,80 @@ def downgraded_context(ctx):
                 return
 
 
+
+def any_port(ctx):
+    """the security of the GetKey connection must not depend on WHERE the (unauthenticated) endpoint mapper sent the client: connections made
+    with credentials / an authentication protocol — to port 135, to a dynamic port, to anything — carry authentication in their bind, seal
+    their request, and refuse a cleartext reply (create_rpc_connection and async_create_rpc_connection over a scripted network)"""
+    import socket as _socket
+    from props import c15
+    from dpapi_ng._rpc import _client as rc, _auth
+    from dpapi_ng import _rpc as r
+    from dpapi_ng._rpc import _request
+    alpha = c15.server_alphabet(ctx.rng)
+    evil = b"KEY MATERIAL CHOSEN BY THE ADVERSARY"
+    marker = b"GETKEY STUB THAT MUST BE SEALED"
+    clear = rpcfmt.finalize(_request.Response(header=r.PDUHeader(5, 0, r.PacketType.RESPONSE, r.PacketFlags(3), r.DataRep(), 0, 0, 1), sec_trailer=None,
+                                               alloc_hint=len(evil), context_id=0, cancel_count=0, stub_data=evil))
+    saved = (rc.socket, rc.asyncio, _auth.spnego.client)
+    for port in (135, 593, 49664, 1):
+        for use_async in (False, True):
+            owner = type("O", (), {"fed": [], "script": [(b"c1", True)], "header_len": 16, "wrap_calls": [], "unwrap_calls": []})()
+            got = {"bind": None, "wire": None, "stub": None}
+            replies = [alpha["ackAA1n"](0), clear]
+            try:
+                _auth.spnego.client = lambda *a, **kw: rpcfmt.ToyContext(owner)
+                if not use_async:
+                    sock = rpcsim.FakeSocket(replies=list(replies))
+                    rc.socket = type("S", (), {"create_connection": staticmethod(lambda addr, timeout=None: sock), "SHUT_RDWR": 2, "MSG_PEEK": _socket.MSG_PEEK})
+                    c = rc.create_rpc_connection("dc01", port, username="u", password="p", auth_protocol="ntlm")
+                    try:
+                        c.bind(c15.contexts())
+                        got["bind"] = sock.sent[0]
+                        got["stub"] = bytes(c.request(0, 0, marker).stub_data)
+                    except Exception:  # noqa
+                        pass
+                    got["bind"] = got["bind"] or (sock.sent[0] if sock.sent else None)
+                    got["wire"] = sock.sent[1] if len(sock.sent) > 1 else None
+                else:
+                    async def go():
+                        reader = asyncio.StreamReader()
+                        pending = list(replies)
+                        w = rpcsim.FakeWriter(lambda data: reader.feed_data(pending.pop(0)) if pending else reader.feed_eof())
+
+                        async def open_connection(host, port=None, **kw):
+                            return reader, w
+                        real_open = asyncio.open_connection
+                        asyncio.open_connection = open_connection
+                        try:
+                            c = await rc.async_create_rpc_connection("dc01", port, username="u", password="p", auth_protocol="ntlm")
+                            try:
+                                await asyncio.wait_for(c.bind(c15.contexts()), 2)
+                                got["stub"] = bytes((await asyncio.wait_for(c.request(0, 0, marker), 2)).stub_data)
+                            except Exception:  # noqa
+                                pass
+                        finally:
+                            asyncio.open_connection = real_open
+                        got["bind"] = w.sent[0] if w.sent else None
+                        got["wire"] = w.sent[1] if len(w.sent) > 1 else None
+                    asyncio.run(go())
+            except Exception as e:  # noqa
+                ctx.notes.append(f"any_port: connection set-up raised {canon_exc(e)} (port {port})")
+            finally:
+                rc.socket, _auth.spnego.client = saved[0], saved[2]
+            ctx.count(f"any_port:{port}")
+            inp = {"scenario": "any_port", "port": port, "async": use_async}
+            if got["bind"] is not None and int.from_bytes(got["bind"][10:12], "little") == 0:
+                ctx.violation("a connection requested with an authentication protocol binds without authentication", inp, hx(got["bind"])[:80], "a bind carrying a security trailer")
+                return
+            if got["stub"] is not None and evil in got["stub"]:
+                ctx.violation("a stub chosen by a party without the session key is returned on a connection requested with authentication", inp, hx(got["stub"])[:80], "error")
+                return
+            if got["wire"] is not None and marker in got["wire"]:
+                ctx.violation("a request on a connection requested with authentication goes out in clear", inp, hx(got["wire"])[:100], "sealed")
+                return
+
+
 def real_ntlm(ctx):
     """the same alterations against a real NTLM security context pair from pyspnego (in-process)"""
     import os, tempfile, spnego
@@ -436,6 +511,12 @@ def replay(ctx, payload):
     if v.get("scenario") == "stripped_handshakes":
         c2 = type(ctx)(ctx.prop, "quick", ctx.seed)
         stripped_handshakes(c2)
+        for x in c2.violations[:3]:
+            print(" ", x["what"], x["input"], x["observed"][:60])
+        return not c2.violations
+    if v.get("scenario") == "any_port":
+        c2 = type(ctx)(ctx.prop, "quick", ctx.seed)
+        any_port(c2)
         for x in c2.violations[:3]:
             print(" ", x["what"], x["input"], x["observed"][:60])
         return not c2.violations
